@@ -750,3 +750,134 @@ func VerifC36Imports() {
 	_, _, err = d2compiler.Compile("index.d2", strings.NewReader(res), &d2compiler.CompileOptions{FS: d2compiler.VFS(files)})
 	nd.Assert(err == nil, "the result of an import update compiles once the file has moved")
 }
+
+// ---- C37 / C39 on diagrams whose labels do not come from the element's own key
+
+// VerifC37Inherited: Set on an element whose current label or style comes from
+// a class, a glob or a later re-definition, and on the first of two
+// definitions of a connection: afterwards the element has exactly the given
+// value and the other elements are unchanged.
+func VerifC37Inherited() {
+	bases := []string{
+		"classes: {k: {label: CL}}\na.class: k\nb.class: k\nc: LC\n",
+		"*.label: GL\na\nb\n",
+		"a: L1\nb: LB\na: L2\n",
+		"a -> b: one\na -> b: two\n(a -> b)[0]: first\n",
+		"classes: {k: {style.opacity: 0.3}}\na.class: k\nb.class: k\n",
+		"a: LA\nb: LB\n**.style.opacity: 0.3\n",
+	}
+	bi := nd.Choose("base", 0, len(bases)-1)
+	g := oCompile(bases[bi])
+	nd.Assert(g != nil, "the base compiles")
+	v := nd.From("val", 1, "xX1")
+	attr := ""
+	if bi >= 4 {
+		attr, v = ".style.opacity", []string{"0.5", "1", "0"}[nd.Choose("op", 0, 2)]
+	}
+	key := "a"
+	if bi == 3 {
+		key = []string{"(a -> b)[0]", "(a -> b)[1]"}[nd.Choose("edge", 0, 1)]
+	}
+	if nd.Known("C37-set-label-under-class-or-glob") && (bi == 0 || bi == 1 || bi == 5) {
+		// recorded finding: the new value is written at the element's own key, where a
+		// `label` field coming from a class or a glob, or a glob declared later in the
+		// file, overrides it
+		return
+	}
+	g2, err := Set(g, nil, key+attr, nil, &v)
+	if err != nil {
+		nd.Cover("refused")
+		return
+	}
+	nd.Cover("set")
+	get := func(gr *d2graph.Graph, k string) (label, opacity string, ok bool) {
+		if strings.HasPrefix(k, "(") {
+			e := oEdgeByID(gr, k)
+			if e == nil {
+				return "", "", false
+			}
+			if e.Style.Opacity != nil {
+				opacity = e.Style.Opacity.Value
+			}
+			return e.Label.Value, opacity, true
+		}
+		o := oObjByID(gr, k)
+		if o == nil {
+			return "", "", false
+		}
+		if o.Style.Opacity != nil {
+			opacity = o.Style.Opacity.Value
+		}
+		return o.Label.Value, opacity, true
+	}
+	l2, o2, ok := get(g2, key)
+	nd.Assert(ok, "Set: the element exists afterwards")
+	if attr == "" {
+		nd.Assert(l2 == v, "Set: the label equals the given value exactly")
+	} else {
+		nd.Assert(o2 == v, "Set: the style attribute equals the given value exactly")
+	}
+	for _, k := range []string{"a", "b", "c", "(a -> b)[0]", "(a -> b)[1]"} {
+		if k == key {
+			continue
+		}
+		l1, o1, ok1 := get(g, k)
+		l3, o3, ok3 := get(g2, k)
+		nd.Assert(ok1 == ok3 && l1 == l3 && o1 == o3, "Set: another element changed")
+	}
+	oStable(g2)
+}
+
+// VerifC39FlatKeys: Move and Rename of objects declared through flat keys
+// (`a.b: LB {...}`) and of objects carrying styles keep every label and style.
+func VerifC39FlatKeys() {
+	bases := []string{
+		"a.b: LB {\n  c: LC\n}\nx: LX\n",
+		"a.b.c: LC\nx: LX\n",
+		"a: LA {\n  style.fill: red\n  c: LC\n}\nx: LX\n",
+		"p: LP {\n  a: LA {\n    style.fill: red\n    c: LC\n  }\n}\nx: LX\n",
+		"a.b: LB\na.b.style.fill: red\nx: LX\n",
+	}
+	bi := nd.Choose("base", 0, len(bases)-1)
+	g := oCompile(bases[bi])
+	nd.Assert(g != nil, "the base compiles")
+	keys := []string{"a", "a.b", "a.b.c", "p.a", "a.c", "p.a.c"}
+	key := keys[nd.Choose("key", 0, len(keys)-1)]
+	src := oObjByID(g, key)
+	nd.Assume(src != nil)
+	desc := nd.Bool("desc")
+	dst := []string{"x", "", "x.y"}[nd.Choose("dst", 0, 2)]
+	name := key[strings.LastIndex(key, ".")+1:]
+	to := name
+	if dst != "" {
+		to = dst + "." + name
+	}
+	nd.Assume(!strings.EqualFold(to, key) && !strings.HasPrefix(strings.ToLower(to), strings.ToLower(key)+"."))
+	labels := func(gr *d2graph.Graph) map[string]int {
+		m := map[string]int{}
+		for _, o := range gr.Objects {
+			l := o.Label.Value
+			if o.Style.Fill != nil {
+				l += " fill=" + o.Style.Fill.Value
+			}
+			if l != o.ID {
+				m[l]++
+			}
+		}
+		return m
+	}
+	before := labels(g)
+	g2, err := Move(g, nil, key, to, desc)
+	if err != nil {
+		nd.Cover("refused")
+		return
+	}
+	nd.Cover("moved")
+	after := labels(g2)
+	for l, c := range before {
+		nd.Assert(after[l] == c, "Move: a label or style of the diagram was lost or moved to another object")
+	}
+	moved := oObjByID(g2, to)
+	nd.Assert(moved != nil && moved.Label.Value == src.Label.Value, "Move: the moved object keeps its label under its new ID")
+	oStable(g2)
+}
